@@ -251,9 +251,18 @@ func fnLcs(ctx *cmdContext, args map[string]any) (output respValue, err error) {
 		return
 	}
 
-	if vals[0] == nil || vals[1] == nil {
-		output.data = respBulkString("")
+	if hasIdx && hasLength {
+		output.data = respErrorString("ERR If you want both the length and indexes, please just use IDX.")
 		return
+	}
+
+	// a missing key is an empty string
+	empty := ""
+	if vals[0] == nil {
+		vals[0] = &empty
+	}
+	if vals[1] == nil {
+		vals[1] = &empty
 	}
 
 	ls := newLongestSeq(*vals[0], *vals[1])
